@@ -19,9 +19,11 @@ RPop == newh # {} /\ Pop(Min(newh)) /\ UNCHANGED <<acts, outs>>
 RAddFinish == AddFinish /\ outs' = Append(outs, Obs) /\ UNCHANGED acts /\ Emit
 RLockBegin(k) == LockBegin(k) /\ acts' = Append(acts, <<"L", k>>) /\ UNCHANGED outs
 RLockFinish == LockFinish /\ outs' = Append(outs, Obs) /\ UNCHANGED acts /\ Emit
+RLockNoop(k) == LockNoop(k) /\ acts' = Append(acts, <<"L", k>>) /\ outs' = Append(outs, Obs) /\ Emit
 RNext == \/ \E B \in SUBSET Hashes : RAddBegin(B)
          \/ RPop \/ RAddFinish
          \/ \E k \in 1..N : RLockBegin(k)
+         \/ \E k \in 1..N : RLockNoop(k)
          \/ RLockFinish
 RSpec == RInit /\ [][RNext]_rpvars
 =============================================================================
